@@ -67,12 +67,16 @@ def spaces(tier):
         if abs_ok:
             out.append(inst(3, 3, False))
         out += [cs.fn_space(L) for L in range(4, 10) if fn_ok]
+        out += [cs.fn_space(7, stretch=60)] if fn_ok else []
+        out.append(cs.sequence_space(3))
         for n in (5, 6, 7):
             out.append(cs.db_space(n, cs.COMBOS[n % 4], 0, binary=True))
     else:
         if abs_ok:
             out.append(inst(3, 3, True))
         out += [cs.fn_space(L) for L in range(4, 12) if fn_ok]
+        out += [cs.fn_space(8, stretch=60)] if fn_ok else []
+        out.append(cs.sequence_space(4))
         for n in (5, 6, 7, 8, 9):
             out.append(cs.db_space(n, cs.COMBOS[n % 4], 0, binary=True))
     return out
@@ -83,5 +87,7 @@ def run_case(case):
         viol, info = matching.run_abs(case)
         return cs.to_result(viol, info)
     viol, info = cs.run_case_for(case, WANT)
+    if case['kind'] == 'sequence':
+        return cs.to_result(viol['C02'], info)
     info['nontrivial'] = bool(info.get('contention'))
     return cs.to_result(viol['C02'], info)
